@@ -197,12 +197,20 @@ def tks(a: float):
     action.set_loc(z)
     action.move(grid.shift(z, a, 0.5))
 
+@tweezer
+def tkt(a: float):
+    z = spec.get_static_trap(zone_id="traps")[0:2, 0:2]
+    action.set_loc(z)
+    action.move(grid.shift(z, a, 0.5))
+
 @move
 def main(n: int, m: int, b: bool):
     d = schedule.device_fn(tk3, [0, 1], [0])
     z = spec.get_static_trap(zone_id="A")[0:2, 0:1]
     ds = schedule.device_fn(tks, [0], [0])
     ds(a=1.0)
+    dt = schedule.device_fn(tkt, [0, 1], [0, 1])
+    dt(2.0)
     d(z, b=2.0, a=1.0)
     r = schedule.reverse(d)
     r(b=0.5, g=z, a=3.0)
@@ -226,6 +234,21 @@ def pick(flag: bool, x, y):
 def main(n: int, m: int, b: bool):
     z = pick(b, spec.get_static_trap(zone_id="A"), spec.get_static_trap(zone_id="B"))
     gate.local_rz(0.5, z[0:1, :])
+    return n
+''']
+
+
+# a lookup of a name the spec does not define, in a branch that is never taken: the program runs as written, so it compiles and
+# runs on every route
+FILLED_SRCS += ['''
+@move
+def main(n: int, m: int, b: bool):
+    dy = 1.0
+    if spec.get_int_constant(constant_id="n0") > 5:
+        dy = spec.get_float_constant(constant_id="not_defined")
+    gate.global_r(dy, 0.5)
+    if n > 7:
+        gate.local_rz(0.5, spec.get_static_trap(zone_id="no_such_zone"))
     return n
 ''']
 
@@ -437,7 +460,9 @@ def run(ctx):
             ctx.count("filled_route_runs")
             case = {"stream": "filled", "source": src, "route": route_name(route)}
             if outs is None:
+                # the fixed programs are valid (each compiles on every route of the pinned tree)
                 ctx.count("filled_route_rejected")
+                ctx.fail(case, f"fixed-source program {i} does not compile on route [{route_name(route)}]: {err}")
                 continue
             A3 = [(2, 0, True), (1, 0, False), (0, 1, True)]
             for a, got, want in zip(A3 + A3, outs, ref[0]):     # (entries 4-6: the second architecture)
